@@ -1,12 +1,16 @@
 #!/bin/sh
-# seedimport.sh <srcdir> — copy finished seeds from <srcdir>/<ID>/<v>/ to seeded/<ID>-<v>/ (if new) and verify + run them
+# seedimport.sh [-P n] <srcdir> — copy finished seeds from <srcdir>/<ID>/<v>/ to seeded/<ID>-<v>/ (if new), then verify + run them (n at a time, default 5)
 root=$(dirname "$(dirname "$(readlink -f "$0")")")
+par=5
+if [ "$1" = "-P" ]; then par=$2; shift 2; fi
 src=${1:-/tmp/seed2}
+new=""
 for d in "$src"/C*/[a-z]; do
   [ -f "$d/meta.json" ] && [ -f "$d/patch.diff" ] && [ -f "$d/demo_test.go" ] || continue
   id=$(basename "$(dirname "$d")"); v=$(basename "$d"); name="$id-$v"
   [ -d "$root/seeded/$name" ] && continue
   mkdir -p "$root/seeded/$name"
   cp "$d/meta.json" "$d/patch.diff" "$d/demo_test.go" "$root/seeded/$name/"
-  "$root/tools/seedsum.sh" "$name" --verify 2>&1 | tail -1
+  new="$new $name"
 done
+echo $new | tr ' ' '\n' | grep . | xargs -P "$par" -I{} sh -c "\"$root/tools/seedsum.sh\" {} --verify 2>&1 | tail -1 | cut -c1-330"
